@@ -174,9 +174,9 @@ async def scratch_build(spec, ctx, build=None):
 # Oracles shared by several properties
 
 
-def expected_content(spec, name, path, read_sha):
+def expected_content(spec, name, path, read_sha, sd=None):
     """What step `name` must have written to `path`, given the sha of everything it reads."""
-    sd = spec["steps"][name]
+    sd = sd if sd is not None else spec["steps"][name]
     label, _ = specgen.step_label(sd)
     reads = [(p, read_sha(p)) for p in sd["inp"] + sd.get("amend_inp", [])]
     env = specgen.ENV_NAMES and spec.get("env", {})
@@ -347,3 +347,52 @@ def diff_facts(a, b, name_a="scratch", name_b="incremental"):
     lines = [f"only in {name_a}: {f!r}" for f in sorted(sa - sb, key=repr)]
     lines += [f"only in {name_b}: {f!r}" for f in sorted(sb - sa, key=repr)]
     return "\n".join(lines[:60])
+
+
+def needed_steps(tables, targets=(), target_dirs=()):
+    """label -> implied need (int) by the definition of the property, as a fixed point in Python.
+
+    need(s) = max(declared need, TARGET if a regular attached output is an exact target,
+              TARGET if declared DEFAULT and a regular attached output lies under a target
+              directory, max over attached steps c consuming an output of s of need(c)).
+    """
+    from stepup.core.enums import FileState, Need
+
+    nodes = {n["i"]: n for n in tables["node"]}
+    steps = {s["node"]: s for s in tables["step"]}
+    files = {f["node"]: f for f in tables["file"]}
+    outputs = {}  # step -> [file ids]
+    consumers = {}  # file -> [step ids]
+    for dep in tables["dependency"]:
+        src, snk = dep["source"], dep["sink"]
+        if src in steps and snk in files:
+            outputs.setdefault(src, []).append(snk)
+        elif src in files and snk in steps:
+            consumers.setdefault(src, []).append(snk)
+    need = {}
+    for i, s in steps.items():
+        if nodes[i]["detached"]:
+            continue
+        value = s["need"]
+        for f in outputs.get(i, []):
+            regular = not nodes[f]["detached"] and files[f]["state"] != FileState.VOLATILE.value
+            label = nodes[f]["label"]
+            if regular and label in targets:
+                value = max(value, Need.TARGET.value)
+            if regular and s["need"] == Need.DEFAULT.value and any(
+                    label.startswith(d) and len(label) >= len(d) for d in target_dirs):
+                value = max(value, Need.TARGET.value)
+        need[i] = value
+    changed = True
+    while changed:
+        changed = False
+        for i in need:
+            best = need[i]
+            for f in outputs.get(i, []):
+                for c in consumers.get(f, []):
+                    if c in need and need[c] > best:
+                        best = need[c]
+            if best != need[i]:
+                need[i] = best
+                changed = True
+    return {nodes[i]["label"]: v for i, v in need.items()}
